@@ -163,6 +163,10 @@ def l1(part, r, n):
 def spell(r, b, kind):
     """kind: 'astring' (atom allowed) or 'string'"""
     atom_ok = b != b'' and all(0x21 <= c <= 0x7e and c not in b'(){%*"\\]' for c in b)
+    if kind == 'listmb':
+        # list-mailbox = 1*list-char / string: the wildcards and ] are allowed unquoted
+        atom_ok = b != b'' and all(0x21 <= c <= 0x7e and c not in b'(){"\\' for c in b)
+        kind = 'astring'
     quoted_ok = all(c not in (0, 10, 13) and c < 0x80 for c in b)
     choices = ['lit', 'lit+']
     if quoted_ok:
@@ -264,6 +268,10 @@ def gen_program(r):
         [('w', b'STATUS'), ('s', enc[0], 'astring'), ('raw', b'(MESSAGES UIDNEXT)')],
         [('w', b'LIST'), ('s', b'', 'astring'), ('s', b'*', 'string')],
         [('w', b'LSUB'), ('s', b'', 'astring'), ('s', r.choice([b'%', b'*', enc[1]]), 'string')],
+        # the pattern is a list-mailbox: an encoded name (with its & shifts) may be sent bare, and means the same as quoted
+        [('w', b'LIST'), ('s', b'', 'astring'), ('s', r.choice([enc[0], enc[1], enc[1] + b'%', enc[0] + b'*']), 'listmb')],
+        [('w', b'LSUB'), ('s', b'', 'astring'), ('s', r.choice([enc[1], enc[1] + b'*']), 'listmb')],
+        [('w', b'LIST'), ('s', r.choice([enc[0], enc[1], b'']), 'astring'), ('s', r.choice([b'*', b'%', b'']), 'listmb')],
         [('w', b'SELECT'), ('s', enc[0], 'astring')],
         [('w', b'SEARCH'), ('w', b'SUBJECT'), ('s', subj, 'astring')],
         [('w', b'SEARCH'), ('w', b'HEADER'), ('s', b'Subject', 'astring'), ('s', subj, 'astring')],
